@@ -47,8 +47,10 @@ fn main() {
         let g = be.lock();
         if g.calls_after_close > 0 || g.closes != 1 {
             hits += 1;
+            let strict = g.events.iter().filter(|e| e.kind != Kind::Close && e.seq > g.close_exit_seq).count();
+            if strict > 0 { println!("trial {t}: {strict} calls ENTERED the backend after close() had returned"); }
             let ci = g.events.iter().position(|e| e.kind == Kind::Close).unwrap();
-            println!("trial {t}: closes={} calls_after_close={} reads={reads}; events after close: {:?}", g.closes, g.calls_after_close, &g.events[ci..]);
+            let _ = (ci, reads);
         }
     }
     println!("trials={trials} hits={hits}");
